@@ -410,14 +410,34 @@ def rule_c10(ctx):
             raise AnalysisError('record/collection loops not told apart in %s' % f.short)
 
         def is_req(n):
-            if n.kind != 'test' or 'requiredComponents.issubset(' not in norm(n.ast.test) or _raising_branch(n) != 'true':
+            """A test whose raising arm is taken exactly when some required component is missing: `not R.issubset(S)`,
+            `R.difference(S)` / `R - S` (non-empty), `not R <= S`, alone or as a disjunct; or the positive forms with the
+            raise in the other arm."""
+            if n.kind != 'test' or 'requiredComponents' not in norm(n.ast.test):
                 return False
+            rb = _raising_branch(n)
+            if rb not in ('true', 'false'):
+                return False
+
+            def missing(e):
+                """+1: e is truthy iff something is missing; -1: e is truthy iff nothing is missing; 0: neither."""
+                if isinstance(e, ast.UnaryOp) and isinstance(e.op, ast.Not):
+                    return -missing(e.operand)
+                if isinstance(e, ast.Call) and isinstance(e.func, ast.Attribute) and norm(e.func.value).endswith('requiredComponents'):
+                    if e.func.attr == 'issubset':
+                        return -1
+                    if e.func.attr == 'difference':
+                        return 1
+                if isinstance(e, ast.BinOp) and isinstance(e.op, ast.Sub) and norm(e.left).endswith('requiredComponents'):
+                    return 1
+                if isinstance(e, ast.Compare) and len(e.ops) == 1 and isinstance(e.ops[0], ast.LtE) and norm(e.left).endswith('requiredComponents'):
+                    return -1
+                return 0
             t = n.ast.test
-            # the raise must not be made conditional on anything else: `not X.issubset(Y)` alone or as a disjunct
-            def neg_subset(e):
-                return isinstance(e, ast.UnaryOp) and isinstance(e.op, ast.Not) and isinstance(e.operand, ast.Call) and \
-                    norm(e.operand.func).endswith('requiredComponents.issubset')
-            return neg_subset(t) or (isinstance(t, ast.BoolOp) and isinstance(t.op, ast.Or) and any(neg_subset(v) for v in t.values))
+            parts = t.values if isinstance(t, ast.BoolOp) and isinstance(t.op, ast.Or) else [t]
+            if rb == 'true':
+                return any(missing(v) == 1 for v in parts)
+            return len(parts) == 1 and missing(t) == -1
         reqs = [n for n in cfg.stmt_nodes() if is_req(n)]
         ok = bool(reqs) and not _feasible_with(cfg, rec[0], Y, reqs, {'namedTypes': True})
         ctx.ob('C10.req', f, 'record exit: required components present (schema with components)', ok,
